@@ -7,6 +7,63 @@ use proptest::prelude::*;
 use serde_json::Value;
 use std::collections::BTreeMap;
 
+/// The reloader's loop is slowed down at its two schedule points (hook `verif::set_schedule_hook`: timing only),
+/// so that "load b; change b; notify; hot_reload" happens while the reloader sits between its request loop and
+/// its look at the event channel, right after a request consumed the event that had woken it up. The change of b
+/// was notified after b was loaded and before the call: the call must apply it.
+fn widened_windows(rounds: u8, p0_us: u16, p1_us: u16, out: &mut Outcome) {
+    use crate::memsrc::{MemSource, OwnedEntry, Variant};
+    use crate::props::common::Ver;
+    use assets_manager::hot_reloading::verif;
+    use assets_manager::AssetCache;
+    let src = MemSource::new(true);
+    let cache = AssetCache::with_source(src.handle());
+    let put = |id: &str, v: u64| src.tree().put(id, "v", v.to_string().into_bytes(), Variant::Buffer);
+    for round in 0..rounds {
+        let (ka, kb) = (format!("a{round}"), format!("b{round}"));
+        put(&ka, 0);
+        put(&kb, 0);
+        let Ok(a) = cache.load::<Ver>(&ka) else { return };
+        // let the reloader register a and go back to sleep
+        std::thread::sleep(std::time::Duration::from_millis(3));
+        verif::set_schedule_hook(Some(std::sync::Arc::new(move |point| {
+            std::thread::sleep(std::time::Duration::from_micros(if point == 0 { p0_us } else { p1_us } as u64));
+        })));
+        put(&ka, 1);
+        src.send(&OwnedEntry::File(ka.clone(), "v".into()));
+        cache.hot_reload();
+        let a_now = a.read().0;
+        let Ok(b) = cache.load::<Ver>(&kb) else {
+            verif::set_schedule_hook(None);
+            return;
+        };
+        put(&kb, 1);
+        src.send(&OwnedEntry::File(kb.clone(), "v".into()));
+        cache.hot_reload();
+        let b_first = b.read().0;
+        let mut calls = 0;
+        while b.read().0 != 1 && calls < 300 {
+            cache.hot_reload();
+            calls += 1;
+            std::thread::sleep(std::time::Duration::from_micros(500));
+        }
+        verif::set_schedule_hook(None);
+        if a_now != 1 {
+            out.fail("hot-reload-returned-before-notified-change", format!("widened windows, round {round}: {ka} was changed and notified before hot_reload was called, the call returned with the old value"));
+            return;
+        }
+        if b.read().0 != 1 {
+            out.fail("reload-lost", format!("widened windows, round {round}: {kb} was loaded, then changed and notified, then hot_reload was called 300 times: the change was never applied (the event was examined before the message that registers {kb} and dropped)"));
+            return;
+        }
+        if b_first != 1 {
+            out.fail("hot-reload-returned-before-notified-change", format!("widened windows, round {round}: {kb} was loaded, changed and notified before hot_reload was called; the change was applied only {calls} call(s) later"));
+            return;
+        }
+    }
+    out.label("widened-reloader-windows");
+}
+
 pub struct C05;
 
 pub fn opts(tier: Tier) -> GenOpts {
@@ -22,7 +79,7 @@ impl Prop for C05 {
         "cases = a generated world (leaf files with two extensions, 1..9 compound nodes whose recipes - stored in the source - load / load_owned / get_cached leaves, lower-numbered nodes (a DAG), \
          directories and raw files, with no_record / thread / other-cache / catch blocks), top-level loads, mode hot_reload() or enhance_hot_reloading, then 1..10 steps; a step = 1..3 edits \
          (value edit, delete, create, recipe rewiring, recipe corruption, new directory / new file in a directory) all notified as a watcher would (entry + parent directory), single or batched, shuffled, with duplicates and noise, \
-         followed by a quiescence barrier (sentinel asset notified last; hot_reload until its reload id grows - in hot_reload() mode the very first call must already have applied it: every notification precedes the call). Oracle: every cached reloadable asset equals a pure model evaluation of its recipe against the current source \
+         followed by a quiescence barrier (sentinel asset notified last; hot_reload until its reload id grows - in hot_reload() mode the very first call must already have applied it: every notification precedes the call). One case in forty ends with the widened-windows scenario (the reloader's loop slowed down at its two schedule points through the hook verif::set_schedule_hook: 'load b; change b; notify; hot_reload' while the reloader sits between its request loop and its look at the event channel): the call must apply the change. Oracle: every cached reloadable asset equals a pure model evaluation of its recipe against the current source \
          and the current values in the real cache (local consistency => global convergence); failing reloads keep the previous value; inside each pass no asset is reloaded before one of its (shadow-recorded) dependencies. \
          non-trivial = some step affects (per the shadow dependency graph) an asset that does not depend directly on a notified entry, or rewires a recipe, or repairs an asset whose previous reload failed; distinct = different canonical JSON"
             .into()
@@ -46,7 +103,12 @@ impl Prop for C05 {
     }
 
     fn strategy(&self, tier: Tier) -> BoxedStrategy<Value> {
-        hot::wcase_strategy(opts(tier), 0.1).prop_map(|c| to_case(&c)).boxed()
+        (hot::wcase_strategy(opts(tier), 0.1), prop_oneof![40 => Just(None), 1 => (2u8..5, 500u16..4000, 3000u16..15000).prop_map(Some)])
+            .prop_map(|(mut c, windows)| {
+                c.windows = windows;
+                to_case(&c)
+            })
+            .boxed()
     }
 
     /// Every DAG of load edges on up to 3 (quick) / 4 (thorough) nodes: node i loads its own leaf and a
@@ -91,7 +153,7 @@ impl Prop for C05 {
                 // break the lowest leaf, then repair it
                 steps.push(hot::Step { edits: vec![hot::Edit::SetFile { id: hot::LEAVES[0].to_string(), ext: "la".into(), content: hot::Content::Bad }], notified: vec![true], batched: false, duplicate: false, noise: vec![], order: 0 });
                 steps.push(single(0, 300, false));
-                out.push(to_case(&WCase { files, nodes, top, static_mode: false, second: SecondCache::None, files2: vec![], steps, dir_ops: vec![] }));
+                out.push(to_case(&WCase { files, nodes, top, static_mode: false, second: SecondCache::None, files2: vec![], steps, dir_ops: vec![], windows: None }));
             }
         }
         out
@@ -186,10 +248,14 @@ impl Prop for C05 {
         if c.static_mode {
             out.label("enhance_hot_reloading");
         }
+        if let (Some((rounds, p0, p1)), false) = (c.windows, out.failed()) {
+            drop(r);
+            widened_windows(rounds, p0, p1, &mut out);
+        }
         out
     }
 
     fn required_labels(&self) -> Vec<&'static str> {
-        vec!["transitive-reload", "rewiring", "break-then-repair", "enhance_hot_reloading", "dir-entry-change"]
+        vec!["transitive-reload", "rewiring", "break-then-repair", "enhance_hot_reloading", "dir-entry-change", "widened-reloader-windows"]
     }
 }
